@@ -14,6 +14,7 @@ import CBV.Lemmas.C18Disk
 import CBV.Lemmas.C18Reject
 import CBV.Lemmas.C18Stable
 import CBV.Lemmas.C18Gap
+import CBV.Lemmas.C18Wrap
 import Mathlib.Analysis.Real.Sqrt
 import CBV.Gen.TC18
 import CBV.Gen.TC19
@@ -786,6 +787,87 @@ example : clearSearch (swapLR cubePts) (cubeHull.reverse.map (fun s => (perm [1,
     perm [1, 0, 3, 2, 5, 4, 7, 6] s.2.1, perm [1, 0, 3, 2, 5, 4, 7, 6] s.2.2))) ⟨1 / 2, -10, 1 / 2⟩ ⟨1 / 2, 1 / 2, 10⟩
     = some cubePts := by decide +kernel
 
+
+/-! ### round 6g: the round-shape finder on a WrappedDisk end face, in every placement -/
+
+section wrapped
+open CBV.C11 (P3)
+open CBV.C19 (lookup sketchFromSource SketchIdx)
+
+/-- **WrappedDisk in ANY placement** (centre `c`, corner point ≠ centre, unit normal perpendicular to the corner direction,
+    `0 < diagonal_ratio < 1`, `0 < radius/|corner − c| < 1`; any ordered field — no √2 enters, the fan uses quarter turns):
+    * `find_shell` looks up exactly the positions at the corner point's distance from the centre: the four corners of the
+      wrapping square (positions 8–11, `get_outer_points`) — the outer boundary of the sketch is the square, not the circle;
+    * `find_core` looks up exactly the four points of the inner square (positions 0–3, at `diagonal_ratio · radius`);
+    * the four points ON THE CIRCLE of radius `radius` (positions 4–7) are looked up by NEITHER: a vertex of the end face
+      that sits on the circle is returned neither by `find_core` nor by `find_shell` (they belong to the middle ring
+      `grid[1]`, which is neither `core = grid[0]` nor `shell = grid[-1]`). -/
+theorem T_C18_wrapped_finder_points {K : Type} [Field K] [LinearOrder K] [IsStrictOrderedRing K]
+    (c corner u : P3 K) (h dg radius wn : K) (hd0 : 0 < dg) (hd1 : dg < 1)
+    (hr0 : 0 < radius / wn) (hr1 : radius / wn < 1)
+    (hu : P3.nsq u = 1) (hp : P3.dot u (P3.sub corner c) = 0) (hr : 0 < P3.nsq (P3.sub corner c))
+    (quads : List (List Nat)) (s : SketchIdx)
+    (hq : lookup "WrappedDisk" CBV.Gen.c19QuadMaps = some quads) (hs : sketchFromSource "WrappedDisk" = some s) (i : Nat) :
+    (i ∈ shellIds quads s ↔ i < 12 ∧
+      P3.nsq (P3.sub ((CBV.C11.wrappedPts c corner u h dg radius wn).getD i c) c) = P3.nsq (P3.sub corner c)) ∧
+    (i ∈ coreIds quads s ↔ i < 4) ∧
+    (i < 4 → P3.nsq (P3.sub ((CBV.C11.wrappedPts c corner u h dg radius wn).getD i c) c) =
+      dg * (radius / wn) * (dg * (radius / wn)) * P3.nsq (P3.sub corner c)) ∧
+    (4 ≤ i → i < 8 → i ∉ shellIds quads s ∧ i ∉ coreIds quads s ∧
+      P3.nsq (P3.sub ((CBV.C11.wrappedPts c corner u h dg radius wn).getD i c) c) =
+        radius / wn * (radius / wn) * P3.nsq (P3.sub corner c)) := by
+  obtain ⟨h1, h2⟩ := wrappedIds_spec quads s hq hs i
+  refine ⟨?_, h2, ?_, ?_⟩
+  · rw [h1]
+    constructor
+    · rintro ⟨a, b⟩
+      exact ⟨b, (CBV.C19.wrapped_onCorner_iff c corner u h dg radius wn hd0 hd1 hr0 hr1 hu hp hr i b).mpr a⟩
+    · rintro ⟨b, a⟩
+      exact ⟨(CBV.C19.wrapped_onCorner_iff c corner u h dg radius wn hd0 hd1 hr0 hr1 hu hp hr i b).mp a, b⟩
+  · intro hi
+    rw [wrapped_dist c corner u h dg radius wn hu hp i (by omega)]
+    simp only [wrappedFactor, hi, if_true]
+  · intro h4 h8
+    refine ⟨fun hm => ?_, fun hm => ?_, ?_⟩
+    · have := (h1.mp hm).1; omega
+    · have := h2.mp hm; omega
+    · rw [wrapped_dist c corner u h dg radius wn hu hp i (by omega)]
+      have : ¬ i < 4 := by omega
+      simp only [wrappedFactor, this, h8, if_true, if_false]
+
+/-- … hence for every vertex list and every (rounded) position list of a WrappedDisk end face: `find_shell` returns exactly
+    the vertices within TOL of one of the four corners of the square, `find_core` exactly those within TOL of one of the
+    four inner-square points; a vertex that is within TOL of positions on the circle only is returned by neither -/
+theorem T_C18_wrapped_find (quads : List (List Nat)) (s : SketchIdx)
+    (hq : lookup "WrappedDisk" CBV.Gen.c19QuadMaps = some quads) (hs : sketchFromSource "WrappedDisk" = some s)
+    (vs pts : List V3) (i : Nat) :
+    (i ∈ findFromPoints vs (pickPts pts (shellIds quads s)) ↔
+      i < vs.length ∧ ∃ k, 8 ≤ k ∧ k < 12 ∧ near (vs.getD i V3.zero) (pts.getD k V3.zero)) ∧
+    (i ∈ findFromPoints vs (pickPts pts (coreIds quads s)) ↔
+      i < vs.length ∧ ∃ k, k < 4 ∧ near (vs.getD i V3.zero) (pts.getD k V3.zero)) := by
+  have hsp := wrappedIds_spec quads s hq hs
+  constructor
+  · simp only [findFromPoints, mem_findIdx, pickPts, List.any_map, List.any_eq_true, Function.comp, decide_eq_true_eq]
+    constructor
+    · rintro ⟨hi, k, hk, hn⟩
+      exact ⟨hi, k, ((hsp k).1.mp hk).1, ((hsp k).1.mp hk).2, hn⟩
+    · rintro ⟨hi, k, h1, h2, hn⟩
+      exact ⟨hi, k, (hsp k).1.mpr ⟨h1, h2⟩, hn⟩
+  · simp only [findFromPoints, mem_findIdx, pickPts, List.any_map, List.any_eq_true, Function.comp, decide_eq_true_eq]
+    constructor
+    · rintro ⟨hi, k, hk, hn⟩
+      exact ⟨hi, k, (hsp k).2.mp hk, hn⟩
+    · rintro ⟨hi, k, h1, hn⟩
+      exact ⟨hi, k, (hsp k).2.mpr h1, hn⟩
+
+/-- non-vacuity: the tables of the current source exist, and over ℚ a WrappedDisk about the origin with corner (2,0,0),
+    radius 1 and diagonal ratio 9/10 satisfies the hypotheses -/
+example : (lookup "WrappedDisk" CBV.Gen.c19QuadMaps).isSome = true ∧ (sketchFromSource "WrappedDisk").isSome = true ∧
+    (0 : ℚ) < 9 / 10 ∧ (9 : ℚ) / 10 < 1 ∧ (0 : ℚ) < 1 / 2 ∧ (1 : ℚ) / 2 < 1 ∧
+    P3.nsq (⟨0, 0, 1⟩ : P3 ℚ) = 1 ∧ P3.dot (⟨0, 0, 1⟩ : P3 ℚ) (P3.sub ⟨2, 0, 0⟩ ⟨0, 0, 0⟩) = 0 ∧
+    0 < P3.nsq (P3.sub (⟨2, 0, 0⟩ : P3 ℚ) ⟨0, 0, 0⟩) := by decide +kernel
+
+end wrapped
 
 /-! ### round 6f: the gap hypothesis discharged for the fan disk classes -/
 
